@@ -707,7 +707,7 @@ def run(scenario, world):
                             # parent-side evaluation between batches: the
                             # next fork starts from different hidden state
                             for xx in xs[:2]:
-                                (obj.evaluateS1 if not s1 else obj)(xx)
+                                call(obj.evaluateS1 if not s1 else obj, xx)
                 finally:
                     ev._stop()
                 return outs
@@ -938,7 +938,10 @@ def generate(rng, index, tier):
             user_filter = 'fflt'
             recipes.append({
                 'h': 'fflt', 'kind': 'filter',
-                'cls': rng.choice(sorted(FILTERS)),
+                # (a mixture filter with its two kernels needs an even
+                # number of simulated individuals: 2 here, 3 never)
+                'cls': rng.choice([f_ for f_ in sorted(FILTERS)
+                                   if f_ != 'GM' or n_sim % 2 == 0]),
                 'data': [[row[:len(ts)] for row in ind[:n_out]]
                          for ind in fdat],
                 'shape': [n_out, len(ts)]})
